@@ -325,9 +325,18 @@ type RNode struct {
 
 // Sync calls UpdateState the way hosts do: every other call with a request-scoped context that is cancelled as soon as the
 // call has returned (the usual `ctx, cancel := ...; defer cancel()`), the others with the node's long-lived context. Whether
-// the block takes effect must not depend on what happens to the caller's context after UpdateState returned nil.
+// the block takes effect must not depend on what happens to the caller's context after UpdateState returned nil. Every fifth
+// call is preceded by an abandoned attempt with the same block (context cancelled before the call).
 func (nd *RNode) Sync(b interfaces.Block, proof []byte) error {
-	if atomic.AddUint64(&nd.syncNo, 1)%2 == 0 {
+	no := atomic.AddUint64(&nd.syncNo, 1)
+	if no%5 == 3 {
+		// a caller that gives up first: the same block offered under an already cancelled context (the call may fail or may still
+		// get through), then the retry that counts
+		gone, cancel := context.WithCancel(nd.ctx)
+		cancel()
+		nd.ML.UpdateState(gone, b, proof)
+	}
+	if no%2 == 0 {
 		return nd.ML.UpdateState(nd.ctx, b, proof)
 	}
 	ctx, cancel := context.WithCancel(nd.ctx)
